@@ -112,6 +112,27 @@ Definition render_result (p : prepared) (r : cres cnode) : str :=
   | Fuel => [70; 85; 69; 76]
   end.
 
+(* " ; state=<expr_level>,<depth>": the state an entry point leaves behind (expr_level = s_lp - s_ln - 1) *)
+Definition render_state (s : cstate_t) : str :=
+  let lp := N.of_nat (s_lp _ _ _ _ s) in
+  let ln := N.of_nat (s_ln _ _ _ _ s) + 1 in
+  [32; 59; 32; 115; 116; 97; 116; 101; 61] ++
+  (if ln <=? lp then dec (lp - ln) else [45] ++ dec (ln - lp)) ++ [44] ++ dec (N.of_nat (s_depth _ _ _ _ s)).
+
+Definition result_state (p : prepared) (r : cres cnode) : str :=
+  match r with
+  | Ok _ s => render_state s
+  | Err _ s => render_state s
+  | _ => []
+  end.
+
+(* the comment list is part of the line only for parse_file *)
+Definition run_parse_state (e : entry) (src : str) : str * str :=
+  match prepare src with
+  | Some p => let r := run_entry e p in (render_result p r, result_state p r)
+  | None => ([70; 85; 69; 76], [])
+  end.
+
 Definition run_parse (e : entry) (src : str) : str :=
   match prepare src with
   | Some p => render_result p (run_entry e p)
